@@ -12,6 +12,7 @@ import GV.Proofs.Utf16
 import GV.Proofs.JsConv
 import GV.Proofs.JsRoundtrip
 import GV.Proofs.CbGuard
+import GV.Proofs.CbHist
 import GV.Proofs.JsTagKey
 
 namespace GV.Props.C11
@@ -259,6 +260,36 @@ theorem callback_guard_witness :
     (run (init 0) [.select none 0 [.send 5, .recv], .recv (some 1), .send (some 2) 4, .dequeue]).1
       = [.errCannotBlock, .blocked, .done, .resumed 1] := by
   decide
+
+/-! ### `$curGoroutine` over whole histories (real `$go` / `$goroutine` / `$runScheduled`) -/
+
+/-- **cur_reset_after_every_activation** — (a) every activation of a goroutine ends with `$curGoroutine = $noGoroutine`,
+    whether the goroutine returns, blocks or dies of an unrecovered panic (the reset sits in the `finally` of `$goroutine`);
+    (b) hence after EVERY event of EVERY history of JavaScript-side events — `go` from a callback (running the scheduler at
+    once, with goroutines that send, receive, select, return or panic), sends / receives / selects in callbacks, timers
+    firing `$runScheduled` — control is back in JavaScript with `$curGoroutine = $noGoroutine`. -/
+theorem cur_reset_after_every_activation :
+    (∀ (h : GV.CbHist.HSt) (g : Nat), (GV.CbHist.activate h g).2.base.cur = none) ∧
+    (∀ (cap : Nat) (es : List GV.CbHist.HEv), (GV.CbHist.run (GV.CbHist.init cap) es).2.base.cur = none) :=
+  ⟨GV.Proofs.CbHist.activate_cur, fun cap es => GV.Proofs.CbHist.run_cur es (GV.CbHist.init cap) rfl⟩
+
+/-- **callback_block_rejected** — after any history (including ones in which goroutines died of unrecovered panics that
+    JavaScript survived), a send / receive / select executed in a JavaScript callback that has to block raises
+    "cannot block in JavaScript callback" and leaves the whole state — queues, buffer, run queue, timers, counters — as it was. -/
+theorem callback_block_rejected (cap : Nat) (es : List GV.CbHist.HEv) :
+    let h := (GV.CbHist.run (GV.CbHist.init cap) es).2
+    (∀ v, h.base.chan.closed = false → h.base.chan.recvQ = [] → ¬ h.base.chan.buffer.length < h.base.chan.capacity →
+      GV.CbHist.sendC h v = (.op .errCannotBlock, h)) ∧
+    (h.base.chan.sendQ = [] → h.base.chan.buffer = [] → h.base.chan.closed = false →
+      GV.CbHist.recvC h = (.op .errCannotBlock, h)) ∧
+    (∀ cs pick, sendOnClosed h.base cs = false → choose h.base cs pick = none →
+      GV.CbHist.selectC h cs pick = (.op .errCannotBlock, h)) :=
+  GV.Proofs.CbHist.blocked_rejected _ (GV.Proofs.CbHist.run_cur es (GV.CbHist.init cap) rfl)
+
+/-- the history of the demo: a goroutine started from a callback panics (JavaScript catches), then a callback receives:
+    rejected, nothing queued; a goroutine started afterwards still runs -/
+example : (GV.CbHist.run (GV.CbHist.init 0) [.go [.panic], .cbRecv, .go [.send 5], .cbRecv]).1
+    = [.threw, .op .errCannotBlock, .ok, .op (.value 5)] := by decide
 
 /-! ### repaired defects (the scheme before fixes/C11-callback-guard.patch) -/
 
